@@ -6,7 +6,8 @@
 (* the constants of the configuration).                                    *)
 (*                                                                         *)
 (*  PlanCorrect      the canonical plan Plan(a, b) satisfies the           *)
-(*                   statement's predicate IsPlan for all 0 <= a, b <= MaxH *)
+(*                   statement's predicate IsPlan for all a in PlanRows,     *)
+(*                   0 <= b <= MaxH (thorough: all 0 <= a, b <= MaxH)      *)
 (*                   (including a > b, a = 0, multiples of 128);           *)
 (*  PlanSharp        IsPlan rejects the canonical plan of a neighbouring   *)
 (*                   range (the predicate is not vacuous);                 *)
@@ -21,11 +22,14 @@
 (***************************************************************************)
 EXTENDS BlockRequestsOps
 
-CONSTANTS MaxH,        \* plan cases: 0 <= a, b <= MaxH
+CONSTANTS PlanRows,    \* plan cases: a \in PlanRows,
+          MaxH,        \*             0 <= b <= MaxH
           MaxBlocks,   \* serve cases: forests with at most MaxBlocks non-genesis blocks
           Maxes,       \* request maxima tried (-1 = absent)
           FieldMasks   \* field masks tried
 
+QuickRows == {0, 1, 2, 3, 64, 126, 127, 128, 129, 130, 255, 256, 257}
+AllRows == 0..MaxH
 MCMaxes == {-1, 0, 1, 2, 3, 129}
 MCMasks == {0, 1, 19, 32}
 
@@ -35,7 +39,7 @@ vars == <<c>>
 (* two levels so that TLC's workers share the cases: an initial state is a  *)
 (* row (all plans with the same a / all views of the same forest), its       *)
 (* successors are the cases of that row                                      *)
-Rows == {[kind |-> "planrow", a |-> a] : a \in 0..MaxH}
+Rows == {[kind |-> "planrow", a |-> a] : a \in PlanRows}
    \cup {[kind |-> "forest", par |-> par] : par \in UNION {SFAllForests(n) : n \in 0..MaxBlocks}}
 
 PlanCasesOf(a) == {[kind |-> "plan", a |-> a, b |-> b] : b \in 0..MaxH}
